@@ -56,6 +56,10 @@ class Env:
         self.use_exp_products = True
         self.extra_axioms = []
         self.checked_labels = 0
+        self.bad_labels = {}
+        self.bounds = {}
+        self.max_bad_per_label = 3
+        self._declared = set()             # inputs whose bounds are already in CTX.pre (persist over paths)
 
     # ------------------------------------------------------------------ inputs
     def _draw(self, shape, lo, hi, kind):
@@ -70,7 +74,8 @@ class Env:
             from .array import sym_real
             from .core import CTX, zr
             a = sym_real(name, shape, dtype if not integer else np.int64)
-            if name not in self.inputs:
+            if name not in self._declared:
+                self._declared.add(name)
                 for e in a._a.ravel():
                     if lo is not None:
                         CTX.pre.append(e.z >= zr(lo))
@@ -80,6 +85,7 @@ class Env:
                         iv = z3.Int('I' + str(e.z))
                         CTX.pre.append(e.z == z3.ToReal(iv))
             self.inputs[name] = ('int' if integer else 'real', shape, a)
+            self.bounds[name] = (lo, hi)
             return a
         if name in self.values:
             v = np.array(self.values[name], dtype=np.float64).reshape(shape)
@@ -97,7 +103,8 @@ class Env:
             from .array import sym_complex
             from .core import CTX, zr
             a = sym_complex(name, shape, dtype)
-            if name not in self.inputs:
+            if name not in self._declared:
+                self._declared.add(name)
                 for e in a._a.ravel():
                     for part in (e.re, e.im):
                         if lo is not None:
@@ -105,9 +112,10 @@ class Env:
                         if hi is not None:
                             CTX.pre.append(part.z <= zr(hi))
             self.inputs[name] = ('cplx', shape, a)
+            self.bounds[name] = (lo, hi)
             return a
         if name in self.values:
-            v = np.array(self.values[name], dtype=np.complex128).reshape(shape)
+            v = to_complex(self.values[name], shape)
         else:
             v = self._draw(shape, lo, hi, 'real') + 1j * self._draw(shape, lo, hi, 'real')
         v = v.astype(dtype)
@@ -184,7 +192,10 @@ class Env:
         if self.sym:
             from .core import CTX, SB
             for c in self._flat_bools(cond):
-                CTX.pre.append(SB(c).e)
+                e = SB(c).e
+                if e.get_id() not in self._declared:
+                    self._declared.add(e.get_id())
+                    CTX.pre.append(e)
             return
         ok = bool(np.all(np.asarray(cond)))
         if not ok:
@@ -240,13 +251,18 @@ class Env:
         self._record_plain(label + ':shape', got == tuple(shape), detail='%s vs %s' % (got, tuple(shape)))
 
     def _record_plain(self, label, ok, detail=None):
-        """a concrete (non-solver) fact about the run, e.g. a shape or dtype"""
+        """a concrete (non-solver) fact about the run, e.g. a shape, a dtype or a mapping that is fully
+        determined by the path; a failing fact is a violation iff the path is feasible (solver query)"""
         if self.sym:
             if ok:
                 self.obls.append(Obl(label, 'unsat', 0.0, False, self.path_no, detail))
             else:
-                self.obls.append(Obl(label, 'sat', 0.0, True, self.path_no, detail))
-                self._candidate(label, None, kind='concrete-fact')
+                t0 = time.time()
+                r, vals = self.path_model()
+                # an infeasible path proves the fact vacuously
+                self.obls.append(Obl(label, 'sat' if r == 'sat' else ('unsat' if r == 'unsat' else r), time.time() - t0, True, self.path_no, detail))
+                if r == 'sat':
+                    self.candidates.append(dict(label=label, values=vals, kind='concrete-fact', path=self.path_no))
         else:
             self.checked_labels += 1
             if not ok:
@@ -261,6 +277,10 @@ class Env:
                 self.failed.append((label, 'shape %s vs %s' % (A.shape, B.shape)))
                 return
             self.checked_labels += 1
+            if A.dtype == bool:
+                A = A.astype(float)
+            if B.dtype == bool:
+                B = B.astype(float)
             with np.errstate(all='ignore'):
                 bad = ~(np.abs(A - B) <= atol + rtol * np.maximum(np.abs(A), np.abs(B)))
                 bad |= ~np.isfinite(A) | ~np.isfinite(B)
@@ -323,6 +343,20 @@ class Env:
             goal = SB(c).e
             self._decide('%s[%d]' % (label, i), goal, z3.is_true(z3.simplify(goal)))
 
+    def prove_and_use(self, label, cond):
+        """decide cond now; when it holds it becomes a (simple) fact for the rest of the path, so
+        that guards in the code under test that depend on it resolve (lemma injection)"""
+        if not self.sym:
+            self.true(label, cond)
+            return
+        import z3
+        from .core import CTX, SB
+        for i, c in enumerate(self._flat_bools(cond)):
+            goal = SB(c).e
+            r = self._decide('%s[%d]' % (label, i), goal, z3.is_true(z3.simplify(goal)))
+            if r == 'unsat':
+                CTX.fact(goal, simple=True)
+
     def lemma(self, label, hyps, goal):
         """abstract lemma over fresh variables: decided from `hyps` alone (no facts of the run);
         a proved lemma is a generalisation and sound to compose with per-entry identities"""
@@ -376,41 +410,64 @@ class Env:
         if trivial:
             self.obls.append(Obl(label, 'unsat', 0.0, False, self.path_no))
             return 'unsat'
+        base = label.split('[')[0]
+        if self.bad_labels.get(base, 0) >= self.max_bad_per_label:
+            # enough candidates / undecided instances of this obligation family: do not burn solver time
+            self.obls.append(Obl(label, 'skipped', 0.0, True, self.path_no))
+            return 'skipped'
         neg = z3.Not(goal)
         ax = self._axioms()
         r, m = core.decide(neg, extra=ax, timeout_ms=self.timeout_ms)
-        if r == 'unknown' and self.pin_tries:
-            r2, m2 = self._pinned(neg, ax)
-            if r2 == 'sat':
-                r, m = r2, m2
+        kind = 'obligation'
+        if r == 'unknown':
+            # candidate from the linear abstraction (monomials as atoms): cheap model, replay decides
+            r3, m3 = core.solve_linear(neg, extra=(), timeout_ms=3000, want_model=True)
+            if r3 == 'sat':
+                self._candidate(label, m3, kind='abstract-model')
+            if self.pin_tries:
+                r2, m2 = self._pinned(neg, ax)
+                if r2 == 'sat':
+                    r, m = r2, m2
         self.obls.append(Obl(label, r, time.time() - t0, True, self.path_no))
+        if r != 'unsat':
+            self.bad_labels[base] = self.bad_labels.get(base, 0) + 1
         if r == 'sat':
-            self._candidate(label, m, kind='obligation')
+            self._candidate(label, m, kind=kind)
         return r
 
-    def _pinned(self, neg, ax):
-        """unknown -> ask the solver again with the inputs pinned to sampled values that satisfy
-        the preconditions (a satisfying assignment is still found and certified by the solver)"""
+    def _pinned(self, neg, ax, tries=None):
+        """unknown -> ask the solver again with a random subset of the inputs pinned to random values of
+        their domain (products of inputs become linear); a satisfying assignment is still found and
+        certified by the solver for the full formula"""
         import z3
+        from fractions import Fraction
         from . import core
-        from .core import CTX, zr
-        for t in range(self.pin_tries):
-            s = z3.Solver()
-            s.set('timeout', 5000)
-            for p in CTX.pre:
-                s.add(p)
-            s.set('random_seed', 11 + t)
-            if str(s.check()) != 'sat':
-                return 'unknown', None
-            m0 = s.model()
+        from .core import CTX
+        tries = self.pin_tries * 3 if tries is None else tries
+        scal = []
+        for name, (kind, shape, arr) in self.inputs.items():
+            lo, hi = self.bounds.get(name, (None, None))
+            lo = -2.0 if lo is None else lo
+            hi = 2.0 if hi is None else hi
+            for e in arr._a.ravel():
+                if kind == 'cplx':
+                    scal += [(e.re.z, lo, hi, False), (e.im.z, lo, hi, False)]
+                elif kind in ('real', 'int'):
+                    scal.append((e.z, lo, hi, kind == 'int'))
+        if not scal:
+            return 'unknown', None
+        rng = np.random.RandomState(1234 + len(self.obls))
+        for t in range(tries):
+            frac = (0.5, 0.75, 0.9)[t % 3]
             pins = []
-            rng = np.random.RandomState(100 + t)
-            for name, (kind, shape, arr) in self.inputs.items():
-                for e in arr._a.ravel():
-                    for part in ([e.re, e.im] if kind == 'cplx' else [e] if kind in ('real', 'int') else []):
-                        v = m0.eval(part.z, model_completion=True)
-                        pins.append(part.z == v)
-            r, m = core.solve(neg, extra=list(ax) + pins, timeout_ms=self.timeout_ms, use_cone=False)
+            for (v, lo, hi, integer) in scal:
+                if rng.uniform() < frac:
+                    x = rng.uniform(lo, hi)
+                    val = Fraction(int(round(x))) if integer else Fraction(x).limit_denominator(64)
+                    if val < Fraction(lo).limit_denominator(10**9) or val > Fraction(hi).limit_denominator(10**9):
+                        val = Fraction(lo + hi).limit_denominator(64) / 2
+                    pins.append(v == z3.RealVal(str(val)))
+            r, m = core.solve(neg, extra=list(ax) + pins, timeout_ms=3000, use_cone=False)
             if r == 'sat':
                 return r, m
         return 'unknown', None
@@ -420,9 +477,20 @@ class Env:
         self.candidates.append(dict(label=label, values=vals, kind=kind, path=self.path_no))
 
     def model_values(self, model):
+        """inputs of a solver model as plain lists; variables the (sliced) query did not constrain get a
+        default inside their declared bounds instead of the model-completion value 0"""
         import z3
+        decls = set(d.name() for d in model.decls())
+
+        def val(term, lo, hi, idx):
+            if z3.is_const(term) and term.decl().name() not in decls:
+                lo_ = -1.0 if lo is None else lo
+                hi_ = 1.0 if hi is None else hi
+                return lo_ + (hi_ - lo_) * (0.31 + 0.07 * (sum(idx) % 5))
+            return _z3_float(model.eval(term, model_completion=True))
         out = {}
         for name, (kind, shape, arr) in self.inputs.items():
+            lo, hi = self.bounds.get(name, (None, None))
             if kind == 'bool':
                 v = np.zeros(shape, dtype=bool)
                 for idx in np.ndindex(*shape):
@@ -432,22 +500,38 @@ class Env:
                 v = np.zeros(shape, dtype=complex)
                 for idx in np.ndindex(*shape):
                     e = arr._a[idx]
-                    v[idx] = complex(_z3_float(model.eval(e.re.z, model_completion=True)),
-                                     _z3_float(model.eval(e.im.z, model_completion=True)))
+                    v[idx] = complex(val(e.re.z, lo, hi, idx), val(e.im.z, lo, hi, idx + (1,)))
                 out[name] = [[x.real, x.imag] for x in v.ravel()]
             else:
                 v = np.zeros(shape, dtype=float)
                 for idx in np.ndindex(*shape):
-                    v[idx] = _z3_float(model.eval(arr._a[idx].z, model_completion=True))
+                    v[idx] = val(arr._a[idx].z, lo, hi, idx)
+                if kind == 'int':
+                    v = np.round(v)
                 out[name] = v.tolist()
         return out
 
     def path_model(self):
-        """a model of pre & facts & path (for exceptions raised by the code under test)"""
+        """a model of pre & facts & path (for exceptions raised by the code under test / failed concrete
+        facts): full query first, then the linear abstraction (candidate only; replay decides)"""
         import z3
         from . import core
-        r, m = core.solve(z3.BoolVal(True), timeout_ms=self.timeout_ms, use_cone=False)
-        return (r, self.model_values(m) if r == 'sat' else None)
+        r, m = core.solve(z3.BoolVal(True), timeout_ms=min(self.timeout_ms, 4000), use_cone=False)
+        if r == 'sat':
+            return r, self.model_values(m)
+        if r == 'unsat':
+            return r, None
+        r2, m2 = core.solve_linear(z3.BoolVal(True), timeout_ms=3000, want_model=True)
+        if r2 == 'unsat':
+            return 'unsat', None
+        r3, m3 = self._pinned(z3.BoolVal(True), [], tries=9)
+        if r3 == 'sat':
+            return 'sat', self.model_values(m3)
+        return r, None
+
+
+class StopCase(BaseException):
+    """enough candidates collected for this case"""
 
 
 def _z3_float(v):
